@@ -35,7 +35,7 @@ func (ex *Exec) runG(g *G) {
 			break
 		}
 		ex.steps++
-		if ex.steps > ex.E.Cfg.MaxSteps {
+		if ex.steps > ex.E.Cfg.MaxSteps && ex.steps > ex.maxSteps {
 			panic(pathEnd{StInconclusive, fmt.Sprintf("step budget %d exceeded%s", ex.E.Cfg.MaxSteps, ex.where())})
 		}
 		ex.step(g, fr)
@@ -348,8 +348,12 @@ func (ex *Exec) jump(fr *Frame, to *ssa.BasicBlock) {
 		fr.visits = map[*ssa.BasicBlock]int{}
 	}
 	fr.visits[to]++
-	if fr.visits[to] > ex.E.Cfg.MaxBlockVisit {
-		panic(pathEnd{StInconclusive, fmt.Sprintf("unwind bound %d exceeded in %s block %d%s", ex.E.Cfg.MaxBlockVisit, fr.fn, to.Index, ex.where())})
+	bound := ex.E.Cfg.MaxBlockVisit
+	if ex.unwind > bound {
+		bound = ex.unwind
+	}
+	if fr.visits[to] > bound {
+		panic(pathEnd{StInconclusive, fmt.Sprintf("unwind bound %d exceeded in %s block %d%s", bound, fr.fn, to.Index, ex.where())})
 	}
 	fr.prev = fr.block
 	fr.block = to
